@@ -580,7 +580,15 @@ impl Relations {
             .collect::<Vec<_>>();
         entries.sort();
         // TODO: preserve comments
-        Self::from(entries)
+        let substvars = self.substvars().collect::<Vec<_>>();
+        if substvars.is_empty() {
+            Self::from(entries)
+        } else {
+            // keep substitution variables, after the sorted entries
+            let mut items = entries.iter().map(|e| e.to_string()).collect::<Vec<_>>();
+            items.extend(substvars);
+            Self::parse_relaxed(&items.join(", "), true).0
+        }
     }
 
     /// Iterate over the entries in this relations field
